@@ -22,7 +22,10 @@ JudgeFeed(e) ==
   LET r == Feed(e.n, e.target, e.pre, e.chunk)
       o == Obs(e)
       gh == GhostOf(e)
-      f == IF o.kind = "Success" THEN FrameOutcome(e.target, gh.seg \o SubSeq(e.chunk, 1, Len(e.chunk) - Len(o.rem))) ELSE [kind |-> "none", tk |-> <<>>]
+      \* where the borrowed leaves of a delivered value lie: in the accumulator's buffer, at the positions of the decoded frame
+      \* that was actually buffered (pre, as read through the hook) - in the rest of an over-long segment this is not the ghost's
+      \* segment, and nothing is owed there except that a result that is delivered borrows from the right places
+      f == IF o.kind = "Success" THEN FrameOutcome(e.target, e.pre \o SubSeq(e.chunk, 1, Len(e.chunk) - Len(o.rem))) ELSE [kind |-> "none", tk |-> <<>>]
       lv == IF f.kind = "Success" THEN SliceLeaves(f.tk) ELSE <<>>
       sameAsModel == e.kind = r.kind /\ e.post = r.buf /\ e.rem_len = Len(r.rem) IN
   Verdict(<< <<e.kind # "panic", "panic">>,
